@@ -77,7 +77,7 @@ pub fn fit_c_tail(res_in: SvmV, targets: &TargetsV) -> (out: SvmV)
 // ---- fit_nu: body extracted from /repo on every run; everything up to and including `solver.solve()` dropped ----
 pub fn fit_nu_tail(res_in: SvmV, targets: &TargetsV) -> (out: SvmV)
     requires from_solver(&res_in), res_in.r is Some,
-    ensures alpha_published(&out, 1), rho_published(&out, 1), hyperplane_published(&out, 1), out.obj.k@ == 2,
+    ensures alpha_published(&out, 1), rho_published(&out, 1), hyperplane_published(&out, 1),
 {
 /*@NTAIL*/
 }
